@@ -709,7 +709,7 @@ impl Harness for ProcHarness {
         params.insert("kill_bias".into(), r.range(0, 2));
         let plan = Plan { harness: self.name().into(), mode: mode.into(), params, threads };
         let mut cfg = CfgSer::base();
-        cfg.step_cap = 400_000;
+        cfg.step_cap = 150_000;
         cfg.sticky = *r.pick(&[0.5, 0.8, 0.95]);
         (plan, cfg)
     }
@@ -758,7 +758,12 @@ impl Harness for ProcHarness {
         let mut inconclusive = false;
         match &run.outcome {
             ProcOutcome::Ok => {}
-            ProcOutcome::StepCap => inconclusive = true,
+            ProcOutcome::StepCap => {
+                // bounded liveness: with a fair controller and a virtual clock every scenario ends after a
+                // few thousand yields; exhausting the budget means some call never terminates
+                let busy: Vec<usize> = (0..run.yields_per_child.len()).filter(|c| run.exit_status[*c].is_none() && !run.killed.iter().any(|k| k.0 == *c)).collect();
+                violation = viol("call-does-not-terminate", format!("processes {busy:?} did not finish within {} yield points ({} s of virtual time); kills {:?}", run.events.len(), (run.now_ns - 1_000_000_000) / 1_000_000_000, run.killed));
+            }
             ProcOutcome::Hang { child } => {
                 violation = viol(if *child == victim { "victim-hang" } else { "survivor-hang" }, format!("process {child} stopped making progress (no yield point for 20 s of real time) after {} events; kills so far {:?}", run.events.len(), run.killed));
             }
